@@ -1,5 +1,6 @@
 """C03 — segmentation invariance (DESIGN.md §4.3). Decided: the mechanism that makes chunk boundaries
 invisible (look-ahead decisions defer at end of chunk; carry protocol). Not decided: equality of two parses."""
+import re
 from ..facts import load, S, strip, nodes, is_lit, lit_name, AnalysisBroken
 from ..report import Result
 from .. import cfg as C
@@ -444,12 +445,26 @@ def run(repo='/repo', tier='quick'):
         f = db.get(name)
         d = 'in' if 'req' in name else 'out'
         ok = False
+        # locals with a single initialiser are expanded, so that `newsize - buf_size` is the same count as `len`
+        inits = {}
+        for bb, ii, s2 in f.stmts():
+            for dcl in nodes(s2, lambda y: y.get('k') == 'decl'):
+                for v in dcl['vars']:
+                    if v.get('init') is not None:
+                        inits.setdefault(v['name'], []).append(P.K(v['init']))
+
+        def expand(t):
+            for nm, vs in inits.items():
+                if len(vs) == 1 and nm != 'len':
+                    t = re.sub(r'\b%s\b' % re.escape(nm), vs[0], t)
+            return t
+        sz_ = 'connp->%s_buf_size' % d
+        counts_ok = {'len', '((%s + len) - %s)' % (sz_, sz_), '((len + %s) - %s)' % (sz_, sz_)}
         for b, i, c in f.calls('memcpy'):
-            if P.K(c['args'][0]) == '(connp->%s_buf + connp->%s_buf_size)' % (d, d) and P.K(c['args'][2]) == 'len':
+            if P.K(c['args'][0]) == '(connp->%s_buf + connp->%s_buf_size)' % (d, d) and expand(P.K(c['args'][2])) in counts_ok:
                 # the size is then advanced by len
                 w = [x for bb, ii, x in P.field_writes(f, '%s_buf_size' % d) if bb == b and ii > i]
-                nsd = [P.K(v['init']) for bb, ii, s2 in f.stmts() for dcl in nodes(s2, lambda y: y.get('k') == 'decl') for v in dcl['vars'] if v['name'] == 'newsize' and 'init' in v]
-                ok = bool(w) and P.K(w[0]['r']) == 'newsize' and nsd == ['(connp->%s_buf_size + len)' % d]
+                ok = bool(w) and ((w[0].get('op') == '=' and expand(P.K(w[0]['r'])) in ('(%s + len)' % sz_, '(len + %s)' % sz_)) or (w[0].get('op') == '+=' and P.K(w[0]['r']) == 'len'))
         res.check(ok, 'C03.c', name + ':append-at-fill', 'new bytes are copied to buf + buf_size and buf_size grows by the same len',
                   'the carried-over line is not extended at buf + buf_size (or the size is not advanced by the copied length): bytes of a line cut by a chunk boundary are overwritten or skipped', f.loc)
     # ... and after the bytes were copied into the carry buffer the consumer position is moved up to the read position on every
